@@ -21,8 +21,8 @@ EXTENDS Integers, Sequences, FiniteSets, TLC, Json, IOUtils, JobLifeProps
 Trace == ndJsonDeserialize(IOEnv.VERIF_TRACE)
 N == Len(Trace)
 
-VARIABLES l, pass, edited, udel, ttlAt, ttlLB, taint, admTruth, listed, succRec, doneAt, hf, viol
-vars == <<l, pass, edited, udel, ttlAt, ttlLB, taint, admTruth, listed, succRec, doneAt, hf, viol>>
+VARIABLES l, pass, edited, udel, ttlAt, ttlLB, ttlVK, taint, admTruth, listed, succRec, doneAt, hf, viol
+vars == <<l, pass, edited, udel, ttlAt, ttlLB, ttlVK, taint, admTruth, listed, succRec, doneAt, hf, viol>>
 
 NoJob == [ex |-> FALSE, started |-> FALSE, st |-> 0, kill |-> 0, del |-> FALSE, fz |-> FALSE, hold |-> FALSE, adm |-> FALSE, phase |-> "", state |-> "",
           conds |-> 0, kind |-> "", result |-> "", fints |-> 0, created |-> 0, running |-> 0, refs |-> <<>>, rv |-> 0]
@@ -74,7 +74,7 @@ StateFails(e, sr) ==
         \cup Fail("C13_DeletionCompletes", C13_DeletionCompletes(s.job, s.pods, NoKube(s)))
         \cup Fail("C13_TTLEventually", C13_TTLEventually(c, s.job, s.now)))
 
-StepFails(e, p, ps, ed, ud, ta, tlb, li, da, srp, at) ==
+StepFails(e, p, ps, ed, ud, ta, tlb, li, da, srp, at, tvk) ==
     LET s == e.st  c == e.cfg  dels == Range(e.dels)
         known == li \cup {[name |-> q.name, idx |-> q.idx, retry |-> q.retry] : q \in Mine(p.pods)} IN
          Fail("C08_Order", C08_OrderStep(c, p.pods, s.pods, known))
@@ -89,9 +89,9 @@ StepFails(e, p, ps, ed, ud, ta, tlb, li, da, srp, at) ==
     \cup Fail("C12_KillSticky", C12_KillStickyStep(p.job, s.job, p.now))
     \cup Fail("C13_Order", C13_OrderStep(p.job, s.job, s.pods))
     \cup Fail("C13_OrderAll", C13_OrderAllStep(p.job, s.job, s.pods))
-    \cup Fail("C13_TTLNotEarly", C13_TTLNotEarlyStep(c, p.job, s.job, ta, ud, da, tlb))
+    \cup Fail("C13_TTLNotEarly", C13_TTLNotEarlyStep(c, p.job, s.job, ta, ud, da, tlb, tvk))
 
-Init == l = 1 /\ pass = NoPass /\ edited = FALSE /\ udel = FALSE /\ ttlAt = 0 /\ ttlLB = 0 /\ taint = "" /\ admTruth = FALSE /\ listed = {} /\ succRec = {} /\ doneAt = 0 /\ hf = FALSE /\ viol = {}
+Init == l = 1 /\ pass = NoPass /\ edited = FALSE /\ udel = FALSE /\ ttlAt = 0 /\ ttlLB = 0 /\ ttlVK = 0 /\ taint = "" /\ admTruth = FALSE /\ listed = {} /\ succRec = {} /\ doneAt = 0 /\ hf = FALSE /\ viol = {}
 
 Next ==
     /\ l <= N
@@ -107,6 +107,7 @@ Next ==
            ud == IF reset THEN FALSE ELSE udel \/ e.ev = "UserDelete"
            ta == IF reset THEN 0 ELSE IF e.ev = "Step" /\ e.op = "delete/jobs" /\ e.err \in {"", "applied-but-error"} /\ ttlAt = 0 THEN s.now ELSE ttlAt
            tlb == IF reset THEN 0 ELSE IF ta # ttlAt THEN MaxFin(p, listed, ps) ELSE ttlLB
+           tvk == IF reset THEN 0 ELSE IF ta # ttlAt THEN ps.j.kill ELSE ttlVK        \* the kill timestamp the deleting pass had in its cached Job
            at == IF reset THEN FALSE
                  ELSE admTruth \/ (e.ev = "Step" /\ e.op = "create/pods" /\ e.err = "AlreadyExists"
                                     /\ \E q \in Range(p.pods) : q.name = e.key /\ ~q.mine)
@@ -119,7 +120,7 @@ Next ==
                    \/ (s.job.ex /\ s.job.started /\ (s.job.adm \/ at))   \* an admission error finishes the Job at once, whatever its other tasks do
                    \/ (s.job.ex /\ ~s.job.started /\ s.job.adm)      \* refused by the queue controller before it started: finished, no tasks
            da == IF reset THEN 0 ELSE IF doneAt = 0 /\ over THEN s.now ELSE doneAt
-           fs == StateFails(e, sr) \cup (IF reset \/ l = 1 THEN {} ELSE StepFails(e, p, ps, ed, ud, ta, tlb, listed, da, succRec, at))
+           fs == StateFails(e, sr) \cup (IF reset \/ l = 1 THEN {} ELSE StepFails(e, p, ps, ed, ud, ta, tlb, listed, da, succRec, at, tvk))
            \* primary manifestations of the known cache-skew findings taint the rest of the run
            inpass == e.ev \in {"SyncBegin", "Step"}
            \* the pass acted: it issued Pod deletes or a mutating call that took effect
@@ -131,7 +132,7 @@ Next ==
                  ELSE IF inpass /\ ps.stale /\ (fs # {} \/ wrote) THEN "jobcache-stale"
                  ELSE IF inpass /\ ps.skew /\ (fs # {} \/ wrote) THEN "podcache-behind"
                  ELSE ""
-       IN /\ pass' = ps /\ edited' = ed /\ udel' = ud /\ ttlAt' = ta /\ ttlLB' = tlb /\ taint' = tn /\ admTruth' = at
+       IN /\ pass' = ps /\ edited' = ed /\ udel' = ud /\ ttlAt' = ta /\ ttlLB' = tlb /\ ttlVK' = tvk /\ taint' = tn /\ admTruth' = at
           /\ listed' = li /\ succRec' = sr /\ doneAt' = da
           /\ hf' = IF e.ev = "Reset" THEN FALSE ELSE hf \/ IsFault(e)
           /\ viol' = viol \cup {r \in {[f |-> f, line |-> l, run |-> e.run, ev |-> e.ev, faulted |-> e.faulted, af |-> (hf \/ IsFault(e)),
